@@ -26,9 +26,9 @@ def https_variation(lru: bytes):
     Returning the http(s) variation of the given lru
     """
 
-    if b"s:http|" in lru:
+    if lru.startswith(b"s:http|"):
         return lru.replace(b"s:http|", b"s:https|", 1)
-    if b"s:https|" in lru:
+    if lru.startswith(b"s:https|"):
         return lru.replace(b"s:https|", b"s:http|", 1)
     return None
 
